@@ -95,10 +95,14 @@ end Loop
 namespace Launch
 open VgiVerif.C33.Launch
 
-/-- (clobbered, a worker was spawned while another was accepting, a launch returned a dead path, #accepting among workers 0..2) -/
+/-- (clobbered, a worker was spawned while another was alive, a launch returned a dead path, #accepting among workers 0..2) -/
 def verdict (sh : LShape) (idle : Nat) (ls : List Label) : Option (Bool × Bool × Bool × Nat) :=
   ((ts sh idle).run ls).map fun s =>
     (s.clobbered, s.mon.badSpawn, s.mon.badRet, ([0, 1, 2].filter fun w => isAccepting (s.ws w)).length)
+
+/-- the start-up of worker `w` spawned by launcher `t` in the extracted order (listen, then announce), up to `_spawn_worker` returning -/
+def startUp (t : Tid) (w : Wid) : List Label :=
+  [.spawn t w, .wCheck w true, .wClear w, .wBind w, .wListen w, .wAnnounce w, .spawnReady t]
 
 /-- the unlink-while-waiting inode hazard.  A foreign launcher's GC (process 9) holds the endpoint's lock file (inode 0),
 finds the endpoint stale and unlinks socket, meta and LOCK FILE; launcher 1 had opened the lock path before the unlink
@@ -113,13 +117,13 @@ def inodeHazard : List Label :=
    .probe 1 false, .probe 2 false, .unlinkStale 1 true, .unlinkStale 2 true, .writeMeta 1, .writeMeta 2,
    .spawn 1 0, .spawn 2 1]
 
-/-- with a `filelock` that lacks the re-check (allowed by `filelock>=3.13`): two workers accepting, no clobbering involved -/
-theorem no_nlink_check_double_spawn : verdict ⟨false⟩ 8 inodeHazard = some (false, true, false, 2) := by decide +kernel
+/-- with a `filelock` that lacks the re-check (allowed by `filelock>=3.13`): two worker processes, no clobbering involved -/
+theorem no_nlink_check_double_spawn : verdict ⟨false, true⟩ 8 inodeHazard = some (false, true, false, 0) := by decide +kernel
 /-- with the installed `filelock` the dead-inode lock is refused: `lockVerify 1 true` is not a step … -/
-theorem nlink_check_refuses_dead_inode : verdict ⟨true⟩ 8 inodeHazard = none := by decide +kernel
+theorem nlink_check_refuses_dead_inode : verdict ⟨true, true⟩ 8 inodeHazard = none := by decide +kernel
 /-- … launcher 1 drops the dead lock and polls again -/
 theorem nlink_check_retries :
-    ((ts ⟨true⟩ 8).run (inodeHazard.take 12 ++ [.lockVerify 1 false])).map (fun s => (s.pc 1, s.held 0)) =
+    ((ts ⟨true, true⟩ 8).run (inodeHazard.take 12 ++ [.lockVerify 1 false])).map (fun s => (s.pc 1, s.held 0)) =
       some (.opening .launch, none) := by decide +kernel
 
 /-- OPEN — a worker's exit-time unlink removes its successor's socket (`serve_unix`'s `finally` →
@@ -128,17 +132,16 @@ compared the path's identity (its own) when launcher 2 — probe failed, stale s
 same path; worker 0's `unlink` now removes worker 1's socket.  Launcher 2 returns a path that names nobody although
 worker 1 is accepting, and launcher 3 (probe fails: no such file) spawns worker 2 while worker 1 is alive. -/
 def exitUnlinkToctou : List Label :=
-  [.begin 1 .launch, .lockOpen 1, .lockFlock 1 true, .lockVerify 1 true, .probe 1 false, .unlinkStale 1 true, .writeMeta 1,
-   .spawn 1 0, .release 1, .ret 1,
+  [.begin 1 .launch, .lockOpen 1, .lockFlock 1 true, .lockVerify 1 true, .probe 1 false, .unlinkStale 1 true, .writeMeta 1] ++
+  startUp 1 0 ++ [.release 1, .ret 1,
    .tick 8, .wExit 0, .wStat 0,
-   .begin 2 .launch, .lockOpen 2, .lockFlock 2 true, .lockVerify 2 true, .probe 2 false, .unlinkStale 2 true, .writeMeta 2,
-   .spawn 2 1,
-   .wUnlink 0,
+   .begin 2 .launch, .lockOpen 2, .lockFlock 2 true, .lockVerify 2 true, .probe 2 false, .unlinkStale 2 true, .writeMeta 2] ++
+  startUp 2 1 ++ [.wUnlink 0,
    .release 2, .ret 2,
-   .begin 3 .launch, .lockOpen 3, .lockFlock 3 true, .lockVerify 3 true, .probe 3 false, .unlinkStale 3 true, .writeMeta 3,
-   .spawn 3 2]
+   .begin 3 .launch, .lockOpen 3, .lockFlock 3 true, .lockVerify 3 true, .probe 3 false, .unlinkStale 3 true, .writeMeta 3] ++
+  startUp 3 2
 
-theorem exit_unlink_clobbers_successor : verdict ⟨true⟩ 8 exitUnlinkToctou = some (true, true, true, 2) := by
+theorem exit_unlink_clobbers_successor : verdict ⟨true, true⟩ 8 exitUnlinkToctou = some (true, true, true, 2) := by
   decide +kernel
 /-- the full statements of `C33_single_spawn` / `C33_accepting` (without the `clobbered = false` hypothesis) are false of
 the model of the code as it is -/
@@ -152,6 +155,23 @@ theorem full_statement_fails :
       ((Spec.LMon.run 8 s.hist).badSpawn, (Spec.LMon.run 8 s.hist).badRet)) = some (true, true) := by decide +kernel
   rw [hs] at h2
   simpa using h2
+
+/-- seeded change C33-5 — `serve_unix` announces (`on_bound`) BEFORE it listens (`listenFirst = false`): worker 0 is bound and
+has written its `UNIX:<path>` line; launcher 1's `_spawn_worker` returns on it and `launch` returns a path whose socket does
+not listen yet (connect → ECONNREFUSED); launcher 2 gets the lock, its probe is refused, it unlinks the LIVE worker's socket
+and creates worker 1 while worker 0 is alive; worker 0 then starts listening on its unlinked socket -/
+def announceBeforeListen : List Label :=
+  [.begin 1 .launch, .begin 2 .launch, .lockOpen 1, .lockFlock 1 true, .lockVerify 1 true, .probe 1 false, .unlinkStale 1 true,
+   .writeMeta 1, .spawn 1 0, .wCheck 0 true, .wClear 0, .wBind 0, .wAnnounce 0, .spawnReady 1, .release 1, .ret 1,
+   .lockOpen 2, .lockFlock 2 true, .lockVerify 2 true, .probe 2 false, .unlinkStale 2 true, .writeMeta 2, .spawn 2 1,
+   .wListen 0]
+
+theorem announce_first_breaks_both_halves :
+    verdict ⟨true, false⟩ 8 announceBeforeListen = some (false, true, true, 1) := by decide +kernel
+/-- in the extracted order the announcement cannot come before `listen()` -/
+theorem listen_first_refuses : verdict ⟨true, true⟩ 8 announceBeforeListen = none := by decide +kernel
+theorem listen_first_refuses_at :
+    (ts ⟨true, true⟩ 8).rejectIndex announceBeforeListen = some 12 := by decide +kernel
 
 end Launch
 
